@@ -1,5 +1,5 @@
-From InfOCF Require Import Core Tol SysZ Form Model PyLib TieLib.
-From InfOCFGen Require Import SrcCond SrcCons SrcZ.
+From InfOCF Require Import Core Tol SysZ Form Model Spec Exec ThmOps ThmTop PyLib TieLib TieSolver TieCons TieInf.
+From InfOCFGen Require Import SrcCond SrcCons SrcInf SrcZ.
 From Coq Require Import ZArith.
 (* TIE: the functions GENERATED from inference/system_z.py (gen/SrcZ.v) equal the hand-written model of
    System Z (Model.z_strict / z_ext), for every signature size, partition, query and mode. *)
@@ -8,27 +8,11 @@ Section TieZ.
 Variable n : nat.
 Notation W := (worlds n).
 Variable q : cond.
-
-Definition acP (Pc:list (list cond)) : list (list (acond world)) := map (map ac) Pc.
-
-Lemma cnt0_nofals L w : (cnt (layer_of L w) =? 0) = nofals world L w.
-Proof. destruct (nofals world L w) eqn:E.
-  - apply Nat.eqb_eq. apply layer_of_cnt0. exact E.
-  - apply Nat.eqb_neq. intros H. apply layer_of_cnt0 in H. congruence. Qed.
-
-(* solver after `[solver.add_assertion(Not(c.make_A_then_not_B())) for c in part]` *)
-Lemma layer_asserted part s w :
-  s_holds (fold_left (fun v_solver v_c => s_add v_solver (FNot (py_make_A_then_not_B n v_c))) part s) w
-  = nofals world (map ac part) w && s_holds s w.
-Proof. revert s. induction part as [|c part IH]; intros s; [reflexivity|].
-  cbn [fold_left]. rewrite IH, s_holds_add. cbn [map]. unfold nofals at 2. cbn [forallb].
-  fold (nofals world (map ac part) w).
-  assert (E: eval w (FNot (py_make_A_then_not_B n c)) = negb (cfal world (ac c) w)) by reflexivity.
-  rewrite E. destruct (negb (cfal world (ac c) w)), (nofals world (map ac part) w); reflexivity. Qed.
-
-Lemma firstn_S_nth {A} k (l:list A) d : k < length l -> firstn (S k) l = firstn k l ++ [nth k l d].
-Proof. revert l. induction k as [|k IH]; intros [|a l] Hk; simpl in *; try lia; [reflexivity|].
-  f_equal. apply IH. lia. Qed.
+Notation acP := (acP).
+Notation cnt0_nofals := (cnt0_nofals).
+Notation layer_asserted := (layer_asserted n).
+Notation inf_asserted := (inf_asserted n).
+Notation inf_asserted_push := (inf_asserted_push n).
 
 Lemma rec_tie : forall k fuel Pc s acc, k < length Pc -> k < fuel ->
   (forall w, s_holds s w = acc w) ->
@@ -78,31 +62,6 @@ Proof.
     cbn [call cbind]. fold rest. clearbody rest. destruct rest; [congruence|reflexivity].
 Qed.
 
-Lemma last_map {A B} (f:A->B) l d : last (map f l) (f d) = f (last l d).
-Proof. induction l as [|a l IH]; [reflexivity|]. destruct l; [reflexivity|]. exact IH. Qed.
-Lemma inf_layer_acP Pc : inf_layer (acP Pc) = map ac (last Pc []).
-Proof. unfold inf_layer, acP. apply (last_map (map ac) Pc []). Qed.
-
-(* solver after `for c in partition[-1]: s.add_assertion(c.make_not_A_or_B())` (with or without a push per conditional) *)
-Lemma inf_asserted L s w :
-  s_holds (fold_left (fun v_s v_c => let v_s := s_add v_s (py_make_not_A_or_B n v_c) in v_s) L s) w
-  = feas (map ac L) w && s_holds s w.
-Proof. revert s. induction L as [|c L IH]; intros s; [reflexivity|].
-  cbn [fold_left]. cbv zeta in *. rewrite IH, s_holds_add. unfold feas. cbn [map]. unfold nofals at 2. cbn [forallb].
-  fold (nofals world (map ac L) w).
-  assert (E: eval w (py_make_not_A_or_B n c) = negb (cfal world (ac c) w)).
-  { simpl. unfold fal. destruct (eval w (cante c)), (eval w (ccons c)); reflexivity. }
-  rewrite E. destruct (negb (cfal world (ac c) w)), (nofals world (map ac L) w); reflexivity. Qed.
-Lemma inf_asserted_push L s w :
-  s_holds (fold_left (fun v_s v_c => let v_s := s_add v_s (py_make_not_A_or_B n v_c) in let v_s := s_push v_s in v_s) L s) w
-  = feas (map ac L) w && s_holds s w.
-Proof. revert s. induction L as [|c L IH]; intros s; [reflexivity|].
-  cbn [fold_left]. cbv zeta in *. rewrite IH, s_holds_push, s_holds_add. unfold feas. cbn [map]. unfold nofals at 2. cbn [forallb].
-  fold (nofals world (map ac L) w).
-  assert (E: eval w (py_make_not_A_or_B n c) = negb (cfal world (ac c) w)).
-  { simpl. unfold fal. destruct (eval w (cante c)), (eval w (ccons c)); reflexivity. }
-  rewrite E. destruct (negb (cfal world (ac c) w)), (nofals world (map ac L) w); reflexivity. Qed.
-
 (* SystemZ._inference: for every non-empty partition, query and mode the generated function returns the model's answer *)
 Theorem tie_z_inference Pc weakly u1 u2 : Pc <> [] ->
   py_SystemZ_inference n (S (length Pc)) Pc u1 q weakly u2
@@ -135,3 +94,35 @@ Proof. intros Hne. unfold py_SystemZ_inference.
     apply firstn_all.
 Qed.
 End TieZ.
+
+Section TieZTop.
+Variable n : nat.
+Notation W := (worlds n).
+
+(* System Z, both modes: consistency() then general_inference around SystemZ._inference *)
+Theorem e2e_z weakly (d:dict Z cond) q u Pc st : dict_values d <> [] ->
+  py_consistency n (S (length d)) (Build_pybase d) u weakly = Return (PVal Pc, st) ->
+  exists b, py_general_inference n (py_SystemZ_inference n (S (length Pc)) Pc u) weakly q tt tt = Return b
+         /\ infer n SysZ weakly (dict_values d) q = Ans b.
+Proof. intros HD Hrun. pose proof (src_partition n _ _ _ _ _ Hrun) as Hc.
+  assert (HPc: Pc <> []).
+  { pose proof (partition_nonempty n _ _ _ HD Hc) as Hne. intros ->. apply Hne. reflexivity. }
+  eexists. split.
+  - apply tie_general_inference. apply (tie_z_inference n q Pc weakly u tt HPc).
+  - unfold infer. destruct (dict_values d) as [|c0 D0] eqn:ED; [congruence|]. rewrite <- ED in *. rewrite Hc.
+    destruct weakly; reflexivity. Qed.
+
+Lemma ans_inj a b : Ans a = Ans b -> a = b.  Proof. congruence. Qed.
+
+Corollary src_z_strict_spec (d:dict Z cond) q u Pc st : dict_values d <> [] ->
+  py_consistency n (S (length d)) (Build_pybase d) u false = Return (PVal Pc, st) ->
+  py_general_inference n (py_SystemZ_inference n (S (length Pc)) Pc u) false q tt tt = Return (z_spec W (acP Pc) q).
+Proof. intros HD Hrun. destruct (e2e_z false d q u Pc st HD Hrun) as [b [Hb Hi]]. rewrite Hb. f_equal.
+  apply ans_inj. rewrite <- Hi. apply infer_z_strict; [exact HD|]. exact (src_partition n _ _ _ _ _ Hrun). Qed.
+Corollary src_z_ext_spec (d:dict Z cond) q u Pc st : dict_values d <> [] ->
+  py_consistency n (S (length d)) (Build_pybase d) u true = Return (PVal Pc, st) ->
+  py_general_inference n (py_SystemZ_inference n (S (length Pc)) Pc u) true q tt tt = Return (ext_spec W (acP Pc) q z_spec).
+Proof. intros HD Hrun. destruct (e2e_z true d q u Pc st HD Hrun) as [b [Hb Hi]]. rewrite Hb. f_equal.
+  apply ans_inj. rewrite <- Hi. apply infer_z_ext; [exact HD|]. exact (src_partition n _ _ _ _ _ Hrun). Qed.
+
+End TieZTop.
